@@ -482,6 +482,45 @@ mod opt {
         ran("hx_select_e2e::opt::tros")
     }
 
+    // More function + same-named group-module pairs: whether the function's
+    // leaf is registered ahead of the module's benchmarks is the linker's
+    // choice, so several pairs make "some pair has the leaf first" likely in
+    // any build (HX_DUMP_ORDER prints the registration order).
+    macro_rules! same_named_pair {
+        ($name:ident, $count:literal, $path:literal) => {
+            #[divan::bench(sample_count = 1, sample_size = 1)]
+            fn $name() {
+                ran(concat!("hx_select_e2e::opt::", $path))
+            }
+
+            #[divan::bench_group(sample_count = $count, sample_size = 2)]
+            pub mod $name {
+                use super::ran;
+
+                #[divan::bench]
+                fn a() {
+                    ran(concat!("hx_select_e2e::opt::", $path, "::a"))
+                }
+
+                #[divan::bench]
+                fn b() {
+                    ran(concat!("hx_select_e2e::opt::", $path, "::b"))
+                }
+
+                #[divan::bench]
+                fn c() {
+                    ran(concat!("hx_select_e2e::opt::", $path, "::c"))
+                }
+            }
+        };
+    }
+    same_named_pair!(pa, 3, "pa");
+    same_named_pair!(pb, 4, "pb");
+    same_named_pair!(pc, 5, "pc");
+    same_named_pair!(pd, 6, "pd");
+    same_named_pair!(pe, 7, "pe");
+    same_named_pair!(pf, 8, "pf");
+
     #[divan::bench_group(sample_count = 4, sample_size = 2)]
     pub mod g1 {
         use super::ran;
@@ -679,6 +718,13 @@ fn apply(mut d: Divan, call: &str) -> Divan {
 }
 
 fn main() {
+    if std::env::var_os("HX_DUMP_ORDER").is_some() {
+        // registration order of the plain benchmarks (what `run_action` iterates)
+        for e in divan::__private::BENCH_ENTRIES.iter() {
+            println!("{}::{}", e.meta.module_path, e.meta.raw_name);
+        }
+        return;
+    }
     let spec = std::env::var("HX_BUILDER").unwrap_or_default();
     let mut d = Divan::default();
     let calls: Vec<&str> = spec.split(';').filter(|s| !s.is_empty()).collect();
